@@ -1,6 +1,7 @@
 import RedactVerif.Props.C01
 import RedactVerif.Props.FactsConsts
 import RedactVerif.Props.FactsSkelBuffer
+import RedactVerif.Props.TransBuffer
 /-
 C03 — no envelope spans a line break: each output line is redactable alone.
 
